@@ -46,7 +46,7 @@ func (p *probe) store(ntx int) int {
 	p.do(action{Name: "Store", Tag: p.tag, H: len(p.r.chain), Txs: txs})
 	return p.tag
 }
-func (p *probe) send()    { p.do(action{Name: "SyncSend"}) }
+func (p *probe) send() { p.do(action{Name: "SyncSend"}) }
 func (p *probe) sendAll() {
 	for len(p.r.notify) > 0 && p.err == nil {
 		p.send()
@@ -272,6 +272,23 @@ func probeCases() []probeCase {
 			fs := p.drain(1)
 			reg := p.r.s.registered(p.r.version)
 			return reg == 0, fmt.Sprintf("frames %v; subscription dropped silently (registered=%d) when the catch-up loop reached a reverted height", fs, reg)
+		}},
+		{key: "subs:events:catch-up-reaches-preconfirmed-chain", versions: []int{9, 10}, run: func(p *probe) (bool, string) {
+			p.store(1)
+			p.sendAll()
+			var fs []frameT
+			p.subscribe(1, events(bidT{K: "num", N: 0}, false), func() { // height read: 3; then the head is reverted and a pre-confirmed round opens at 3
+				p.revert()
+				p.tx++
+				p.do(action{Name: "PcFull", Num: 3, Rid: 1, Txs: []int{p.tx}})
+			})
+			fs = p.drain(1)
+			for _, f := range fs {
+				if f.K == "event" && f.A == 0 && f.D != finPreConf {
+					return true, fmt.Sprintf("frames %v: the catch-up of a subscription that did NOT ask for PRE_CONFIRMED delivered a pre-confirmed event (no block hash) labelled %d", fs, f.D)
+				}
+			}
+			return false, fmt.Sprint(fs)
 		}},
 		{key: "subs:status:stale-after-reorg", versions: []int{9, 10}, run: func(p *probe) (bool, string) {
 			t := p.store(1)
